@@ -127,6 +127,7 @@ type notaryEnv struct {
 	expectSame     string
 	mustNotSeal    string
 	mustNotSealLen int
+	receiverOf     map[string]string // transaction hash -> receiver address, of every validly proposed transaction
 }
 
 const notaryDataSize = 48
@@ -299,6 +300,12 @@ func (e *notaryEnv) propose(t *transaction.Transaction) error {
 	if len(t.Data) > 0 {
 		e.mustNotSeal, e.mustNotSealLen = hex.EncodeToString(t.Hash[:]), len(t.Data)
 	}
+	if e.receiverOf == nil {
+		e.receiverOf = map[string]string{}
+	}
+	if _, seen := e.receiverOf[hex.EncodeToString(t.Hash[:])]; !seen && e.trxValid(t, false) {
+		e.receiverOf[hex.EncodeToString(t.Hash[:])] = t.ReceiverAddress
+	}
 	f, b := e.flash.removes.Load(), e.cache.balOps.Load()
 	_, rerr := e.srv.Propose(e.ctx, p)
 	if rerr == nil && len(t.Data) == 0 {
@@ -337,6 +344,8 @@ func (e *notaryEnv) reject(r *pb.SignedHash) error {
 	e.acc.called = false
 	if len(r.Hash) != 32 || sha256.Sum256(r.Data) != [32]byte(r.Hash) || !e.provValid(r.Signature, r.Address, [32]byte(r.Hash)) {
 		e.expectSame = "reject"
+	} else if rec, ok := e.receiverOf[hex.EncodeToString(r.Data)]; ok && rec != r.Address {
+		e.expectSame = "reject-by-someone-else" // correctly signed, but not by the receiver of that contract
 	}
 	f, b := e.flash.removes.Load(), e.cache.balOps.Load()
 	_, rerr := e.srv.Reject(e.ctx, r)
